@@ -6,8 +6,11 @@ package sched
 
 import (
 	"fmt"
+	"os"
+	"runtime"
 	"runtime/debug"
 	"sort"
+	"strconv"
 	"strings"
 	"time"
 
@@ -29,6 +32,10 @@ type Scenario struct {
 	// AfterAll is evaluated once after the exploration completed without violation (reachability
 	// facts accumulated by the harness over all executions).
 	AfterAll func() *core.Failure
+	// AfterAllMinBound: AfterAll is only meaningful (and only evaluated) when the exploration
+	// completed at least this preemption bound — a reachability claim over a smaller set of
+	// schedules would be a false alarm.
+	AfterAllMinBound int
 }
 
 const Unbounded = 1 << 20
@@ -69,18 +76,19 @@ type BoundStat struct {
 }
 
 type Result struct {
-	Scenario   string      `json:"scenario"`
-	PerBound   []BoundStat `json:"per_bound"`
-	Executions int64       `json:"executions"`
-	States     int         `json:"states"`      // at the largest bound completed
-	Steps      int64       `json:"transitions"` // scheduler steps executed (all bounds)
-	Histories  int         `json:"distinct_histories"`
-	Outcomes   int         `json:"distinct_outcomes"`
-	MaxBound   int         `json:"max_bound_completed"` // Unbounded if the space closed without a bound
-	Probes     int64       `json:"state_probes"`
-	Violation  *Violation  `json:"violation,omitempty"`
-	CapHit     string      `json:"cap_hit,omitempty"`
-	SampleHist string      `json:"sample_history,omitempty"`
+	Scenario   string       `json:"scenario"`
+	PerBound   []BoundStat  `json:"per_bound"`
+	Executions int64        `json:"executions"`
+	States     int          `json:"states"`      // at the largest bound completed
+	Steps      int64        `json:"transitions"` // scheduler steps executed (all bounds)
+	Histories  int          `json:"distinct_histories"`
+	Outcomes   int          `json:"distinct_outcomes"`
+	MaxBound   int          `json:"max_bound_completed"` // Unbounded if the space closed without a bound
+	Probes     int64        `json:"state_probes"`
+	Violation  *Violation   `json:"violation,omitempty"`
+	Known      []*Violation `json:"known,omitempty"` // first execution per recorded known finding; exploration continued past them
+	CapHit     string       `json:"cap_hit,omitempty"`
+	SampleHist string       `json:"sample_history,omitempty"`
 }
 
 type Explorer struct {
@@ -94,6 +102,8 @@ type Explorer struct {
 	probes   int64
 	viol     *Violation
 	expired  bool
+	memCap   bool
+	known    map[string]*Violation // signature -> first failing execution of a recorded known finding
 	sample   string
 	maxExec  int64
 	probed   map[core.H]struct{} // states already probed at a smaller bound
@@ -102,12 +112,12 @@ type Explorer struct {
 }
 
 type runResult struct {
-	x       *core.Exec
-	ctx     any
-	points  []point
-	pruned  bool
-	newAt   []int // indices of points whose state was new (for MutProbe)
-	probe   string
+	x      *core.Exec
+	ctx    any
+	points []point
+	pruned bool
+	newAt  []int // indices of points whose state was new (for MutProbe)
+	probe  string
 }
 
 // run executes one schedule: follows choices (indices into the enabled list) as far as they go,
@@ -289,14 +299,25 @@ func (e *Explorer) explore(prefix []int) {
 		e.expired = true
 		return
 	}
+	if e.stat.Executions&0x3ff == 0x3ff && overMemory() {
+		// the sandbox has no memory limit: a worker whose tables outgrow its share stops like one
+		// that met its deadline (exhaustive:false for this bound, exit 0)
+		e.expired = true
+		e.memCap = true
+		return
+	}
 	rr := e.run(prefix, -1, false)
 	e.stat.Executions++
 	x := rr.x
 	if rr.pruned && x.Fail == nil {
 		e.stat.Pruned++
 	} else if x.Fail != nil {
-		e.fail(rr, x.Fail)
-		return
+		if !e.noteKnown(rr, x.Fail) {
+			e.fail(rr, x.Fail)
+			return
+		}
+		// a recorded known finding: this execution ends here; the search goes on so that a
+		// different violation of the same scenario is still found
 	} else {
 		hk := HistoryKey(x.Hist)
 		if _, ok := e.hist[hk]; !ok {
@@ -317,6 +338,9 @@ func (e *Explorer) explore(prefix []int) {
 		if pr.x.Fail != nil {
 			pr.points = rr.points[:i]
 			pr.probe = "mutprobe"
+			if e.noteKnown(pr, pr.x.Fail) {
+				continue
+			}
 			e.fail(pr, pr.x.Fail)
 			return
 		}
@@ -348,6 +372,26 @@ func (e *Explorer) explore(prefix []int) {
 			}
 		}
 	}
+}
+
+// KnownSigs holds the signatures (with the scenario class appended, as they are reported) of the
+// findings recorded as known for this property; set by Main in the parent and in every worker.
+var KnownSigs = map[string]bool{}
+
+func (e *Explorer) noteKnown(rr *runResult, f *core.Failure) bool {
+	full := f.Sig + "|" + scenarioClass(e.sc.Name)
+	if !KnownSigs[full] {
+		return false
+	}
+	if e.known != nil {
+		if _, ok := e.known[full]; !ok {
+			saved := e.viol
+			e.fail(rr, f)
+			e.known[full] = e.viol
+			e.viol = saved
+		}
+	}
+	return true
 }
 
 func (e *Explorer) fail(rr *runResult, f *core.Failure) {
@@ -429,8 +473,8 @@ func Replay(sc Scenario, schedule []int, probe string) (*core.Failure, []*core.O
 
 // Explore enumerates all schedules of sc with at most `bound` preemptions, iterating the bound
 // 0,1,2,… (bound == Unbounded: then without a bound). It stops at the first violation.
-func Explore(sc Scenario, bound int, deadline time.Time) Result {
-	res := Result{Scenario: sc.Name, MaxBound: -1}
+func Explore(sc Scenario, bound int, deadline time.Time) (res Result) {
+	res = Result{Scenario: sc.Name, MaxBound: -1}
 	// iterative bounding: 0,1,2,… so that the first counterexample has the fewest preemptions and a
 	// run stopped by its deadline still reports the largest bound it completed
 	var bounds []int
@@ -444,8 +488,14 @@ func Explore(sc Scenario, bound int, deadline time.Time) Result {
 	succ := map[succKey]core.H{}
 	hist := map[string]struct{}{}
 	outcomes := map[string]struct{}{}
+	known := map[string]*Violation{}
+	defer func() {
+		for _, v := range known {
+			res.Known = append(res.Known, v)
+		}
+	}()
 	for _, b := range bounds {
-		e := &Explorer{sc: sc, bound: b, visited: map[core.H]int32{}, hist: hist, outcomes: outcomes, deadline: deadline, probed: probed, succ: succ}
+		e := &Explorer{sc: sc, bound: b, visited: map[core.H]int32{}, hist: hist, outcomes: outcomes, deadline: deadline, probed: probed, succ: succ, known: known}
 		e.stat.Bound = b
 		e.explore(nil)
 		e.stat.States = len(e.visited)
@@ -464,12 +514,16 @@ func Explore(sc Scenario, bound int, deadline time.Time) Result {
 			break
 		}
 		if e.expired {
-			res.CapHit = fmt.Sprintf("deadline during bound %d after %d executions", b, e.stat.Executions)
+			why := "deadline"
+			if e.memCap {
+				why = fmt.Sprintf("memory cap of %d MiB per worker", memCapMiB())
+			}
+			res.CapHit = fmt.Sprintf("%s during bound %d after %d executions", why, b, e.stat.Executions)
 			break
 		}
 		res.MaxBound = b
 	}
-	if res.Violation == nil && res.CapHit == "" && sc.AfterAll != nil {
+	if res.Violation == nil && res.CapHit == "" && sc.AfterAll != nil && res.MaxBound >= sc.AfterAllMinBound {
 		if f := sc.AfterAll(); f != nil {
 			res.Violation = &Violation{Scenario: sc.Name, Sig: f.Sig, What: f.What, Bound: res.MaxBound, Probe: "afterall"}
 		}
@@ -477,4 +531,19 @@ func Explore(sc Scenario, bound int, deadline time.Time) Result {
 	res.Histories = len(hist)
 	res.Outcomes = len(outcomes)
 	return res
+}
+
+// memCapMiB is the heap a worker process may use for its visited / successor / history tables
+// (VERIF_WORKER_MEM_MIB, default 3072: 16 workers stay below the machine's memory).
+func memCapMiB() uint64 {
+	if v, err := strconv.Atoi(os.Getenv("VERIF_WORKER_MEM_MIB")); err == nil && v > 0 {
+		return uint64(v)
+	}
+	return 3072
+}
+
+func overMemory() bool {
+	var m runtime.MemStats
+	runtime.ReadMemStats(&m)
+	return m.HeapAlloc>>20 > memCapMiB()
 }
